@@ -7,6 +7,7 @@ import (
 	"net"
 	"sort"
 	"strconv"
+	"sync"
 	"time"
 
 	"google.golang.org/grpc"
@@ -24,9 +25,14 @@ type RawNode struct {
 	// Only assigned at creation.
 	id     uint32
 	addr   string
-	conn   *grpc.ClientConn
 	cancel func()
 	mgr    *RawManager
+
+	// connMu protects conn and closed: dial runs on the channel's sending
+	// goroutine (re-dial), close on the goroutine that closes the manager.
+	connMu sync.Mutex
+	conn   *grpc.ClientConn
+	closed bool
 
 	// the default channel
 	channel *channel
@@ -72,7 +78,13 @@ func (n *RawNode) connect(mgr *RawManager) error {
 }
 
 // dial the node and close the current connection.
-func (n *RawNode) dial() error {
+func (n *RawNode) dial() (*grpc.ClientConn, error) {
+	n.connMu.Lock()
+	defer n.connMu.Unlock()
+	if n.closed {
+		// don't create a connection that nobody will close.
+		return nil, fmt.Errorf("node closed")
+	}
 	if n.conn != nil {
 		// close the current connection before dialing again.
 		n.conn.Close()
@@ -81,7 +93,7 @@ func (n *RawNode) dial() error {
 	ctx, cancel := context.WithTimeout(context.Background(), n.mgr.opts.nodeDialTimeout)
 	defer cancel()
 	n.conn, err = grpc.DialContext(ctx, n.addr, n.mgr.opts.grpcDialOpts...)
-	return err
+	return n.conn, err
 }
 
 // newContext returns a new context for this node's channel.
@@ -107,6 +119,9 @@ func (n *RawNode) close() error {
 	if n.cancel != nil {
 		n.cancel()
 	}
+	n.connMu.Lock()
+	defer n.connMu.Unlock()
+	n.closed = true
 	if n.conn == nil {
 		return nil
 	}
